@@ -105,6 +105,7 @@ type fakeClient struct {
 	live     map[uint16]bool // vBuckets whose stream was requested successfully and not closed since
 	// closeNotFound: CloseStream of a vBucket without a live stream is answered "no such stream", as a node does
 	closeNotFound bool
+	seqGate       func(aware bool) // called at the start of every sequence-number query, outside the lock
 	closing       map[uint16]bool // vBuckets for which a close request has arrived (reset by a successful OpenStream)
 }
 
@@ -125,6 +126,12 @@ func (f *fakeClient) GetAgentConfigSnapshot() (*gocbcore.ConfigSnapshot, error) 
 func (f *fakeClient) GetNumVBuckets() int { return f.numVb }
 
 func (f *fakeClient) GetVBucketSeqNos(aware bool) (*wrapper.ConcurrentSwissMap[uint16, uint64], error) {
+	f.mu.Lock()
+	gate := f.seqGate
+	f.mu.Unlock()
+	if gate != nil {
+		gate(aware) // the query is on its way to the cluster (a scrape waiting for its answer)
+	}
 	f.mu.Lock()
 	defer f.mu.Unlock()
 	f.seqCalls++
